@@ -337,6 +337,7 @@ cpdef double complex expect_super_dia(Dia op, Dia state) except *:
         if (
             -state.offsets[diag_state] < op.shape[1]
             and -op.offsets[diag_op] - state.offsets[diag_state] >= 0
+            and -op.offsets[diag_op] - state.offsets[diag_state] < op.shape[0]
             and (-op.offsets[diag_op] - state.offsets[diag_state]) % stride == 0
         ):
             expect += state.data[diag_state * state.shape[1]] * op.data[diag_op * op.shape[1] - state.offsets[diag_state]]
